@@ -141,7 +141,7 @@ Qed.
 
 Lemma map_step_ext e E p : PVn e -> forall acc k, map_step e E p acc k = map_step e (R p E) p acc k.
 Proof.
-  intros He acc k. unfold map_step. destruct acc as [cur| | | |]; simpl; try reflexivity.
+  intros He acc k. unfold map_step. destruct acc as [cur| | |]; simpl; try reflexivity.
   destruct (has_prefix (p ++ [US]) k); [|reflexivity].
   destruct (cut_us (skipn (length p + 1) k)) as [|c mk]; [reflexivity|].
   destruct (negb (str_eqb (c :: mk) (upper (c :: mk)))); [reflexivity|].
